@@ -273,6 +273,7 @@ def _fix_packet(program):
     """Packets of this check use the reduced prelude (families Fam1, Fam2, Last)."""
     if program.kind == "packet":
         program.node.attrs["family"] = "Last"
+        program.node.attrs["action"] = "Act"
     return program
 
 
